@@ -16,7 +16,8 @@
     _runner / daemon_killer's exit branch / apply), model-checked (safety for 8 + 6 configurations, the bounded completion
     of a deletion for 96 timed ones, negative and witness configurations) and bound to the SAME executions by step
     conformance (Trace_Spawning.tla): a spawn, a stop flag, a cancellation, a write of the finalizer, a sleep or a touch
-    that the specification does not make in that state at that instant is a rejection.
+    that the specification does not make in that state at that instant is a rejection. Every fourth history runs the operator
+    in a cluster peering and pauses it by a foreign record of a higher priority (the pausing branch of the daemon killer).
 """
 from concurrent.futures import ProcessPoolExecutor
 
@@ -45,7 +46,7 @@ def run(ctx, rep) -> None:
     rep.extra['witness_configs'] = neg
     # Spawning.tla: the implementation-shaped model of the same machinery (stages of stop_daemons by the age of the flag, instant
     # exits, the exiting killer, apply's patch | sleep | touch), bound to the code by Trace_Spawning below
-    for c in ['q', 'exit', 'timed'] + ([] if ctx.quick else ['live']):
+    for c in ['q', 'exit', 'timed', 'pause'] + ([] if ctx.quick else ['live']):
         r = tlc.run('MC_Spawning', f'MC_Spawning_{c}.cfg', timeout=3000)
         rep.add_tlc(f'MC_Spawning_{c}', r)
         if not r.ok:
